@@ -390,6 +390,9 @@ def run_case(case, acc):
         p.smaps_rollup = {"present": rollup_bytes, "enoent": None, "esrch": errno.ESRCH,
                           "esrch_on_read": ("read_err", errno.ESRCH)}[mode]
 
+    if harness.chash(case)[-1] in "01":
+        t.fake_getpid = case["pid"]        # one case in eight: the process inspects itself (os.getpid() answers its pid)
+        acc.count("cases_where_the_process_inspects_itself")
     vk = vkernel.VK()
     vk.table = t
     vk.mount("/vproc", t)
